@@ -224,6 +224,10 @@ func (n *deviateReplace) isAllowed(target, property parse.Node, ec extCard) erro
 		return nil
 
 	default:
+		if property.Type() == parse.NodeUnknown {
+			// Unknown extensions are ignored, as in the other deviates
+			return nil
+		}
 		if ec(target, property) == '1' {
 			// Known extensions with cardinality '1' are allowed
 			return nil
